@@ -12,7 +12,7 @@ CHECKS = {
         '(and random walks beyond it), the TLA+ specification computes the admissible outcomes on a pool of documents, '
         'and every case is replayed into Search/Compile/Expression.Search built from the working tree. Exhaustive inside '
         'the bound; the specification itself is calibrated against the compliance corpus on every run.',
-   note='Trusts the TLA+ reading of the standard (both selector-chain readings are admitted, DESIGN app. A), TLC, and the '
+   note='Trusts the TLA+ reading of the standard (the uniform selector-chain rule that C01 states; the alternative readings once admitted were removed, DESIGN 3.3 / 8.17), TLC, and the '
         'tagged-value projection shared by spec and harness.'),
  'C02': dict(
    level='model_checking', ref='DESIGN.md 6 (C02), 3.4',
